@@ -1,5 +1,8 @@
         requires
             pstream_ok(self),
-            self.line == 1, self.air.ast@.len() == 0, self.air.breakpoints.0@.len() == 0,
+            self.line == 1, self.air.ast@.len() == 0, self.air.breakpoints.0@.len() == 0, self.toks.pos() == 0,
         ensures
             r matches Ok(air) ==> air_wf(air) && table_grown(old(sym)@, final(sym)@, (air.ast@.len() + 1) as int),
+            // C01 "one word per statement": the program has exactly one statement per instruction / trap / data token of the stream —
+            // none dropped, none processed twice (what each statement contains is the helpers' contracts)
+            r matches Ok(air) ==> air.ast@.len() == count_heads(self.toks.all(), self.toks.all().len() as int),
